@@ -182,6 +182,100 @@ def decorate(rng, tree):
     return n_done
 
 
+# ------------------------------------------------------------------ trees built through the PSyIR API
+# (the frontend lower-cases every identifier; transformations and PSy-layer generation create symbols
+#  through the API with mixed-case names: stored name <> normalised table key)
+MIXED = ["tmpVal", "jIdx", "NLayers", "UPPER", "Work_Array", "iDx", "df_Loop", "cellCount", "ZZ", "Tmp_2"]
+
+
+def _lit(v):
+    N, S = P()
+    return N.Literal(str(v), S.INTEGER_TYPE)
+
+
+def _add(a, b):
+    N, _ = P()
+    return N.BinaryOperation.create(N.BinaryOperation.Operator.ADD, a, b)
+
+
+def build_api_program(rng, k):
+    """a module built entirely through the API: mixed/upper-case data symbols, loop variable, routine and
+    container symbols, a tag, a module-level kind parameter, a sibling call, and — in the loop body's
+    own scope — a name that differs from an outer one only in case"""
+    N, S = P()
+    cont = N.Container("MixedMod%d" % k)
+    ct = cont.symbol_table
+    gcount = ct.new_symbol("GlobalCount", symbol_type=S.DataSymbol, datatype=S.INTEGER_TYPE)
+    use_kind = rng.random() < 0.4
+    if use_kind:
+        rdef = ct.new_symbol("I_Def", symbol_type=S.DataSymbol, datatype=S.INTEGER_TYPE, is_constant=True,
+                             initial_value=_lit(4))
+    helper = N.Routine.create("HelperSub", S.SymbolTable(), [])
+    ht = helper.symbol_table
+    y = S.DataSymbol("yArg", S.INTEGER_TYPE, interface=S.ArgumentInterface(S.ArgumentInterface.Access.READWRITE))
+    ht.add(y)
+    ht.specify_argument_list([y])
+    loc = ht.new_symbol("LocTmp", symbol_type=S.DataSymbol, datatype=S.INTEGER_TYPE)
+    helper.addchild(N.Assignment.create(N.Reference(loc), N.Reference(y)))
+    helper.addchild(N.Assignment.create(N.Reference(y), _add(N.Reference(loc), _lit(1))))
+    hsym = ct.new_symbol("HelperSub", symbol_type=S.RoutineSymbol)
+    main = N.Routine.create(rng.choice(["DoWork", "COMPUTE_All", "invoke_0_Kern"]), S.SymbolTable(), [])
+    mt = main.symbol_table
+    names = rng.sample(MIXED, 4)
+    npts = mt.new_symbol("nPoints", symbol_type=S.DataSymbol, datatype=S.INTEGER_TYPE, is_constant=True,
+                         initial_value=_lit(8))
+    bound = N.Reference(npts) if rng.random() < 0.35 else _lit(8)
+    arr = mt.new_symbol("Field_A", symbol_type=S.DataSymbol, datatype=S.ArrayType(S.INTEGER_TYPE, [bound]))
+    idx = mt.new_symbol(names[0], symbol_type=S.DataSymbol, datatype=S.INTEGER_TYPE)
+    tmp = mt.new_symbol(names[1], symbol_type=S.DataSymbol, datatype=S.INTEGER_TYPE, tag="Tag_" + names[1])
+    q = mt.new_symbol(names[2], symbol_type=S.DataSymbol,
+                      datatype=S.ScalarType(S.ScalarType.Intrinsic.INTEGER, rdef) if use_kind else S.INTEGER_TYPE)
+    main.addchild(N.Assignment.create(N.Reference(tmp), _add(N.Reference(gcount), _lit(1))))
+    body = N.Assignment.create(N.ArrayReference.create(arr, [N.Reference(idx)]),
+                               _add(N.ArrayReference.create(arr, [N.Reference(idx)]), N.Reference(tmp)))
+    loop = N.Loop.create(idx, _lit(1), N.Reference(npts), _lit(1), [body])
+    main.addchild(loop)
+    inner = S.DataSymbol(tmp.name.swapcase(), S.INTEGER_TYPE)
+    loop.loop_body.symbol_table.add(inner)
+    loop.loop_body.addchild(N.Assignment.create(N.Reference(inner), _add(N.Reference(idx), N.Reference(tmp))))
+    main.addchild(N.IfBlock.create(
+        N.BinaryOperation.create(N.BinaryOperation.Operator.GT, N.Reference(tmp), _lit(2)),
+        [N.Assignment.create(N.Reference(q), N.Reference(tmp))], [N.Assignment.create(N.Reference(q), _lit(0))]))
+    main.addchild(N.Call.create(hsym, [N.Reference(tmp)]))
+    main.addchild(N.Assignment.create(N.Reference(gcount), N.Reference(q)))
+    cont.addchild(main)
+    cont.addchild(helper)
+    if rng.random() < 0.5:
+        fc = N.FileContainer("file%d" % k)
+        fc.addchild(cont)
+        return fc
+    return cont
+
+
+def api_decorate(rng, tree):
+    """what a transformation script does to a tree read from Fortran: new mixed-case temporaries and loop
+    counters (new_symbol / DataSymbol), a tag, statements using them, and a case-only clash in a nested scope"""
+    N, S = P()
+    done = 0
+    for rt in tree.walk(N.Routine):
+        if rng.random() > 0.6:
+            continue
+        table = rt.symbol_table
+        names = rng.sample(MIXED, 3)
+        tmp = table.new_symbol(names[0], symbol_type=S.DataSymbol, datatype=S.INTEGER_TYPE, tag="Tag_" + names[0])
+        jdx = table.new_symbol(names[1], symbol_type=S.DataSymbol, datatype=S.INTEGER_TYPE)
+        rt.addchild(N.Assignment.create(N.Reference(tmp), _lit(rng.randint(1, 9))))
+        body = N.Assignment.create(N.Reference(tmp), _add(N.Reference(tmp), N.Reference(jdx)))
+        loop = N.Loop.create(jdx, _lit(1), _lit(3), _lit(1), [body])
+        rt.addchild(loop)
+        if rng.random() < 0.6:
+            inner = S.DataSymbol(tmp.name.upper() if tmp.name.upper() != tmp.name else tmp.name.lower(), S.INTEGER_TYPE)
+            loop.loop_body.symbol_table.add(inner)
+            loop.loop_body.addchild(N.Assignment.create(N.Reference(inner), N.Reference(jdx)))
+        done += 1
+    return done
+
+
 # ------------------------------------------------------------------ serialiser (fail-closed)
 NODE_CLASSES = {"FileContainer", "Container", "Routine", "Schedule", "Loop", "IfBlock", "Assignment",
                 "Reference", "ArrayReference", "StructureReference", "ArrayOfStructuresReference",
@@ -205,12 +299,27 @@ class Ser:
         self.syms = {}                      # sid -> (name, typed, sdt, init, intf)
         self.objs = {0: ([], [], 0)}        # oid -> (bounds, osyms, pay)
         self.names = {}
+        self.bases = {}
         self.todo = []
 
     def intern(self, s):
         if s not in self.names:
             self.names[s] = len(self.names) + 1
         return self.names[s]
+
+    def name_code(self, name):
+        """a Fortran name as the model sees it: 16 * <id of the lower-cased spelling> + <case variant>;
+        variant 0 is the lower-case spelling (= the normalised table key), so `norm` in the model is
+        SymbolTable._normalize"""
+        low = name.lower()
+        if low not in self.bases:
+            self.bases[low] = (len(self.bases) + 1, [low])
+        base, variants = self.bases[low]
+        if name not in variants:
+            if len(variants) >= 16:
+                raise OutOfSubset("more than 16 case variants of a name")
+            variants.append(name)
+        return 16 * base + variants.index(name)
 
     # --- identities
     def node_id(self, n):
@@ -271,7 +380,7 @@ class Ser:
         N, _ = P()
         tab = None
         if isinstance(n, N.ScopingNode):
-            tab = [(self.intern(k), self.sym_id(s)) for k, s in n.symbol_table._symbols.items()]
+            tab = [(self.name_code(k), self.sym_id(s)) for k, s in n.symbol_table._symbols.items()]
         return (self.node_id(n), self.tag(n), self.slot(n, self.sym_id), tab, [self.node(c) for c in n.children])
 
     # --- datatypes
@@ -362,7 +471,7 @@ class Ser:
                 intf = ("I", self.sym_id(s.interface.container_symbol))
             else:
                 intf = ("L", self.intf_obj(s.interface))
-            self.syms[self.sid[id(s)]] = (self.intern(s.name.lower()), typed, sdt, init, intf)
+            self.syms[self.sid[id(s)]] = (self.name_code(s.name), typed, sdt, init, intf)
 
 
 # model-side helpers on serialised structures
@@ -481,7 +590,7 @@ class Obs:
         nid = self.ser.nid[id(c)] if id(c) in self.ser.nid else self.ser.nid[id(o)] + OFF
         tab = None
         if isinstance(c, N.ScopingNode) and not expr:
-            tab = [(self.ser.intern(k), self.sym(s)) for k, s in c.symbol_table._symbols.items()]
+            tab = [(self.ser.name_code(k), self.sym(s)) for k, s in c.symbol_table._symbols.items()]
         return (nid, self.ser.tag(c), self.ser.slot(c, self.sym), tab,
                 [self.node(a, b, expr) for a, b in zip(o.children, c.children)])
 
@@ -541,7 +650,7 @@ class Obs:
                 if isinstance(so.interface, S.ImportInterface):
                     raise CopyBroken("import interface lost")
                 intf = ("L", self.obj(so.interface, sc.interface, True))
-            self.csyms[cid] = (ser.intern(sc.name.lower()), typed, sdt, init, intf)
+            self.csyms[cid] = (ser.name_code(sc.name), typed, sdt, init, intf)
 
 
 # ------------------------------------------------------------------ Coq printing
@@ -657,6 +766,8 @@ def direct_checks(o, c):
                     if not (isinstance(sb.interface, S.ImportInterface)
                             and id(sb.interface.container_symbol) in own_b):
                         out.append(("deep_copy/import-container-not-rebound", sa.name))
+            if sorted(ta._tags) != sorted(tb._tags) or any(tb._tags[g] is not m.get(id(x)) for g, x in ta._tags.items()):
+                out.append(("deep_copy/tags-not-own", type(a).__name__))
             la, lb = ta.argument_list, tb.argument_list
             if [x.name for x in la] != [x.name for x in lb] or any(m.get(id(x)) is not y for x, y in zip(la, lb)):
                 out.append(("deep_copy/argument-list-not-own", type(a).__name__))
@@ -779,7 +890,7 @@ def random_edit(rng, a, allow_inplace, counter):
     try:
         if kind == "rename" and own_syms:
             sc, s = rng.choice(own_syms)
-            new = "%s_r%d" % (s.name[:6], uid)
+            new = rng.choice(["%s_r%d", "%s_R%d", "X%s%d"]) % (s.name[:6], uid)
             old = s.name
             sc.symbol_table.rename_symbol(s, new)
             return Edit(kind, "rename_symbol(%s -> %s) in %s" % (old, new, type(sc).__name__), [("sym", s)])
@@ -793,7 +904,7 @@ def random_edit(rng, a, allow_inplace, counter):
                 s = S.DataSymbol(nm, S.INTEGER_TYPE)
                 sc.symbol_table.add(s)
             else:
-                root = rng.choice(["i", "s", "tmp", "nb", "a"])
+                root = rng.choice(["i", "s", "tmp", "nb", "a", "tmpVal", "NB", "Idx"])
                 s = sc.symbol_table.new_symbol(root, symbol_type=S.DataSymbol, datatype=S.INTEGER_TYPE)
             scheds = [x for x in a.walk(N.Schedule) if x is sc or x.ancestor(type(sc), include_self=False) is sc
                       or sc in _ancestors(x)]
@@ -1101,6 +1212,9 @@ def _reread(src, decor_seed):
     from fparser.common.sourceinfo import FortranFormat
     from fparser.two.symbol_table import SYMBOL_TABLES
     from psyclone.psyir.frontend.fortran import FortranReader
+    if src.startswith("!api:"):
+        _, seed, k = src.split("\n")[0].split(":")
+        return build_api_program(random.Random(int(seed)), int(k))
     rd = FortranReader()
     if src not in _CACHE:
         if len(_CACHE) > 8:
@@ -1110,7 +1224,10 @@ def _reread(src, decor_seed):
         sr.set_format(FortranFormat(True, False))
         _CACHE[src] = rd._parser(sr)
     t = rd._processor.generate_psyir(_CACHE[src])
-    decorate(random.Random(decor_seed), t)
+    r = random.Random(decor_seed)
+    decorate(r, t)
+    if decor_seed % 2:
+        api_decorate(r, t)
     return t
 
 
@@ -1153,6 +1270,11 @@ def run(ctx):
     for k in range(n_prog):
         src, feats = gen_source(rng, k)
         dseed = rng.randrange(10 ** 9)
+        if k % 3 == 2:
+            src, feats = "!api:%d:%d\n! built by props/C15/check.py build_api_program(random.Random(seed), k)\n" % (dseed, k), \
+                ["api_built"]
+        elif dseed % 2:
+            feats = feats + ["api_decorated"]
         results["decor_seed"][k] = dseed
         try:
             tree = _reread(src, dseed)
